@@ -38,9 +38,6 @@ def install_executor(w):
             fragment_definitions="dyn", root_value="dyn", operation="dyn", context_value="dyn",
             abort_signal="dyn", async_helpers="dyn")
     w.alias("GraphQLResolveInfo", "graphql.type.definition.GraphQLResolveInfo")
-    w.contract("graphql.error.located_error.located_error",
-               params={"original_error": "exc:Exception", "nodes": "opaque", "path": "opaque"},
-               returns="exc:GraphQLError", ensures=[], raises=[], assumed=True)
     w.contract(f"{EX}.to_nodes", params={"field_details_list": ("list", "dyn")},
                returns=("list", "dyn"), ensures=[], props={"C02"})
 
@@ -282,7 +279,11 @@ def install_collect_impl(w):
     w.contract(f"{CF}.should_include_node",
                params={"context": "opaque", "node": "ref:SelectionNode", "variable_values": "opaque",
                        "fragment_variable_values": "opaque"},
-               returns="bool", ensures=[], raises=["GraphQLError"], assumed=True)
+               returns="bool",
+               # ghosts: the number of calls, and the last answer (read by collect_fields_impl's
+               # per-iteration contract: a selection that is not included has no effect at all)
+               ensures=["ghost('incl') == ite(result, 1, 0)"], ghost_modifies=["incl"],
+               ghost_calls=["incl_calls"], raises=["GraphQLError"], assumed=True)
     w.contract(f"{CF}.get_defer_usage",
                params={"variable_values": "opaque", "fragment_variable_values": "opaque",
                        "node": "ref:SelectionNode", "parent_defer_usage": "opaque"},
@@ -320,8 +321,21 @@ def install_collect_impl(w):
                    " ghost('recursed') == at_iter_start(ghost('recursed')) + 1"
                    " and (fragment.definition.type_condition is None"
                    " or cond_applies(schema, fragment.definition.type_condition, runtime_type)))",
+               ],
+                   "iter_post": [
+                   # @skip/@include are evaluated once per selection, and a selection they exclude
+                   # leaves no trace: no field grouped, no fragment entered, not marked as visited,
+                   # no defer usage recorded
+                   "implies(IsFieldSel(selection) or IsInlineSel(selection) or IsSpreadSel(selection),"
+                   " ghost('incl_calls') == at_iter_start(ghost('incl_calls')) + 1)",
+                   "implies(ghost('incl') == 0 and ghost('incl_calls') > at_iter_start(ghost('incl_calls')),"
+                   " ghost('grouped') == at_iter_start(ghost('grouped'))"
+                   " and ghost('recursed') == at_iter_start(ghost('recursed'))"
+                   " and len(new_defer_usages) == at_iter_start(len(new_defer_usages))"
+                   " and forall_int(k, mhas(visited_fragment_names, k)"
+                   " == at_iter_start(mhas(visited_fragment_names, k))))",
                ]}},
-               props={"C02"})
+               props={"C02", "C13"})
     # does_fragment_condition_match is called with inline fragments and fragment definitions
     w.shape("InlineFragmentNode", type_condition="opt:ref:NamedTypeNode")
 
